@@ -16,7 +16,11 @@ O2  lookup precedence, bounded-exhaustive.  For the names n, now, today: every s
     syntactic positions, in the root template, in include/render partials, macro
     bodies and an overridden block, sync and async, through get_template /
     get_template_async / from_string.  The value printed must be the one of the first
-    present layer in the documented order.
+    present layer in the documented order.  The same enumeration is repeated with the
+    resolving layer (and the resolving + next layer, and only the next layer) bound to
+    nil, false, 0, '', [] and {}: a binding to a falsy-looking value is still a binding,
+    so the lookup must stop there; extra sites (== nil, == false, == empty, | json) and
+    a StrictUndefined environment tell nil apart from "undefined".
 """
 
 from __future__ import annotations
@@ -47,8 +51,9 @@ RULE = (
     "mid-render; sync and async; get_template and from_string.  distinct = hash of "
     "(templates, api, mode, data seed); non-trivial = the template parsed, i.e. >= 1 "
     "container reachable from caller data was handed to a filter or tag at render time.  "
-    "O2 cases = (name, layer subset, lookup context, construction variant, api, mode); "
-    "non-trivial = >= 2 layers define the name."
+    "O2 cases = (name, layer subset, lookup context, construction variant, api, mode, "
+    "value profile: distinct strings | resolving layer(s) bound to nil/false/0/''/[]/{}); "
+    "non-trivial = >= 2 layers define the name, or a layer binds a falsy-looking value."
 )
 ASSUMPTIONS = [
     "caller data is JSON-like (None/bool/int/float/str/list/dict/tuple); user-defined "
@@ -61,6 +66,13 @@ ASSUMPTIONS = [
     "counter layer value is 3 (three increments executed before the lookup, their "
     "output discarded by delimiters); built-in now/today are recognised by their "
     "printed shape, not by an injected clock",
+    "falsy-value profiles: the counter and built-in layers cannot bind nil, so subsets "
+    "whose resolving layer is one of them are not applicable (6 of 384); the expected "
+    "text per site is a hand-written table from the documented semantics (nil prints '', "
+    "only nil/false are falsy, default replaces nil/false/empty); printing a hash "
+    "directly is undocumented and only required not to show another layer's value; [] "
+    "and {} reach block/local layers through a helper environment global (c10f, "
+    "c10items) because Liquid has no literal for them",
 ]
 
 LAYERS = ("env", "tmpl", "matter", "args")
@@ -900,8 +912,15 @@ RE_NOW = re.compile(r"^\d{4}-\d\d-\d\d \d\d:\d\d:\d\d(\.\d+)?$")
 RE_TODAY = re.compile(r"^\d{4}-\d\d-\d\d$")
 OPEN, CLOSE = "\u00ab", "\u00bb"
 
+# Falsy-looking values a layer may bind the name to.  A binding to any of them is still a
+# binding: the lookup must stop there (nil prints as '', but is not "undefined").
+FALSY: dict[str, Any] = {"nil": None, "false": False, "zero": 0, "estr": "", "elist": [],
+                         "edict": {}}
+FALSY_LITERAL = {"nil": "nil", "false": "false", "zero": "0", "estr": "''"}
+LOOSE = "\x00loose"  # printing a hash directly is undocumented: only "not another layer"
 
-def sites(N: str, only: str | None = None) -> str:  # noqa: N803
+
+def sites(N: str, only: str | None = None, extended: bool = False) -> str:  # noqa: N803
     chain = "".join(
         f"{{% {'if' if j == 0 else 'elsif'} {N} == '{v}' %}}{v}"
         for j, v in enumerate(list(VAL.values()) + list(DECOY)[:3])
@@ -924,10 +943,19 @@ def sites(N: str, only: str | None = None) -> str:  # noqa: N803
         ("liquid", f"{{% liquid echo {N} %}}"),
         ("ifout", f"{{% if {N} %}}{{{{ {N} }}}}{{% else %}}none{{% endif %}}"),
     ]
+    if extended:
+        s += [
+            ("isnil", f"{{% if {N} == nil %}}nil{{% else %}}notnil{{% endif %}}"),
+            ("isfalse", f"{{% if {N} == false %}}false{{% else %}}notfalse{{% endif %}}"),
+            ("empty", f"{{% if {N} == empty %}}empty{{% else %}}notempty{{% endif %}}"),
+            ("json", f"{{{{ {N} | json }}}}"),
+        ]
     return "".join(f"{OPEN}{k}:{body}{CLOSE}" for k, body in s if only in (None, k))
 
 
 NSITES = sites("n").count(OPEN)
+NSITES_EXT = sites("n", None, True).count(OPEN)
+PRINT_SITES = ("out", "echo", "append", "tstr", "assign", "lambda", "inner", "liquid")
 
 
 def expected_layer(name: str, present: set[str]) -> str | None:
@@ -947,14 +975,46 @@ def expected_text(kind: str, layer: str | None) -> str | None:
                 "ifout": "none"}.get(kind, "")
     if layer == "builtin":
         return {"ifchain": "other", "case": "else"}.get(kind)
+    if kind in ("isnil", "isfalse", "empty"):
+        return "not" + {"isnil": "nil", "isfalse": "false", "empty": "empty"}[kind]
     if layer == "counter":
         return str(COUNTER_N)
+    if kind == "json":
+        return '"' + VAL[layer] + '"'
     return VAL[layer]
 
 
-def classify(kind: str, text: str, name: str) -> str:
+def expected_falsy(kind: str, fk: str) -> str:
+    """What a lookup site prints when the name resolves to the falsy value *fk*
+    (documented: only nil and false are falsy; nil prints as the empty string;
+    `default` replaces nil, false and empty values; `empty` equals '', [] and {})."""
+    if kind in PRINT_SITES:
+        return {"nil": "", "false": "false", "zero": "0", "estr": "", "elist": "",
+                "edict": LOOSE}[fk]
+    if kind == "default":
+        return "0" if fk == "zero" else "undef"
+    if kind == "ifchain":
+        return "none" if fk in ("nil", "false") else "other"
+    if kind == "case":
+        return "else"
+    if kind in ("ternary", "ifout"):
+        return {"nil": "none", "false": "none", "zero": "0", "estr": "", "elist": "",
+                "edict": LOOSE}[fk]
+    if kind == "isnil":
+        return "nil" if fk == "nil" else "notnil"
+    if kind == "isfalse":
+        return "false" if fk == "false" else "notfalse"
+    if kind == "empty":
+        return "empty" if fk in ("estr", "elist", "edict") else "notempty"
+    if kind == "json":
+        return {"nil": "null", "false": "false", "zero": "0", "estr": '""', "elist": "[]",
+                "edict": "{}"}[fk]
+    raise ValueError(kind)
+
+
+def classify(kind: str, text: str, name: str) -> str:  # noqa: ARG001
     for layer, v in VAL.items():
-        if text == v:
+        if text in (v, '"' + v + '"'):
             return layer
     if text in DECOY:
         return DECOY[text]
@@ -965,6 +1025,28 @@ def classify(kind: str, text: str, name: str) -> str:
     if text in ("", "none", "undef", "else"):
         return "undefined" if kind != "case" or text == "else" else "unknown"
     return "unknown-value"
+
+
+def profile_values(name: str, mask: int, falsy: dict[str, Any] | None):
+    """(value of every valued layer, layers given the falsy value, resolving layer) or
+    None when the profile does not apply to this subset."""
+    vals: dict[str, Any] = dict(VAL)
+    present = _layers(mask)
+    chain = [la for la in ORDER
+             if la in present or (la == "builtin" and name in ("now", "today"))]
+    if not falsy:
+        return vals, [], (chain[0] if chain else None)
+    if not chain or chain[0] not in VAL:
+        return None
+    if falsy["mode"] == "inner":
+        targets = [chain[0]]
+    else:
+        if len(chain) < 2 or chain[1] not in VAL:
+            return None
+        targets = chain[:2] if falsy["mode"] == "inner2" else [chain[1]]
+    for t in targets:
+        vals[t] = copy.deepcopy(FALSY[falsy["kind"]])
+    return vals, targets, chain[0]
 
 
 CONTEXTS = {
@@ -987,25 +1069,43 @@ ARGUMENT_VARIANTS = {
 }
 
 
-def build(name: str, mask: int, context: str, variant: str, only: str | None = None) -> dict[str, str]:
+def build(name: str, mask: int, context: str, variant: str, only: str | None = None,
+          falsy: dict[str, Any] | None = None) -> dict[str, str]:
     """Templates for one O2 case (the render-arg, matter, global layers live outside)."""
     N = name  # noqa: N806
     B = bool(mask & BIT["block"])  # noqa: N806
     L = bool(mask & BIT["local"])  # noqa: N806
     C = bool(mask & BIT["counter"])  # noqa: N806
+    pv = profile_values(name, mask, falsy)
+    assert pv is not None, "profile not applicable"
+    vals = pv[0]
+
+    def lit(layer: str) -> str:
+        v = vals[layer]
+        if isinstance(v, str) and v:
+            return f"'{v}'"
+        assert falsy is not None
+        if falsy["lit"] and falsy["kind"] in FALSY_LITERAL:
+            return FALSY_LITERAL[falsy["kind"]]
+        return "c10f"  # helper environment global holding the falsy value
+
+    vb = lit("block")
+    if isinstance(vals["block"], str) and vals["block"]:
+        src_setup, src = f"{{% assign c10src = {vb} | split: ',' %}}", "c10src"
+    else:
+        src_setup, src = "", "c10items"  # helper environment global: [falsy value]
     inc = (f"{{% increment {N} %}}" * COUNTER_N) if C else ""
-    asg = f"{{% assign {N} = 'vL' %}}" if L else ""
-    S = sites(N, only)  # noqa: N806
+    asg = f"{{% assign {N} = {lit('local')} %}}" if L else ""
+    S = sites(N, only, bool(falsy))  # noqa: N806
 
     def block(kind: str) -> tuple[str, str]:
         if not B:
             return "", ""
         if kind == "with":
-            return f"{{% with {N}: 'vB' %}}", "{% endwith %}"
+            return f"{{% with {N}: {vb} %}}", "{% endwith %}"
         if kind == "for":
-            return (f"{{% assign c10src = 'vB' | split: ',' %}}{{% for {N} in c10src %}}",
-                    "{% endfor %}")
-        return (f"{{% with {N}: 'xO', c10pad: 1 %}}{{% with {N}: 'vB' %}}",
+            return (src_setup + f"{{% for {N} in {src} %}}", "{% endfor %}")
+        return (f"{{% with {N}: 'xO', c10pad: 1 %}}{{% with {N}: {vb} %}}",
                 "{% endwith %}{% endwith %}")
 
     def ordered(kind: str, order: str, body: str) -> str:
@@ -1038,39 +1138,37 @@ def build(name: str, mask: int, context: str, variant: str, only: str | None = N
         if variant == "plain":
             return {"root": ordered("with", "0", "{% include 'p' %}"), "p": S}
         if variant == "kw":
-            arg = f", {N}: 'vB'" if B else ""
+            arg = f", {N}: {vb}" if B else ""
             return {"root": inc + asg + f"{{% include 'p'{arg} %}}", "p": S}
         if variant == "inner":
             o, c = block("with")
             return {"root": o + "{% include 'p' %}" + c, "p": inc + asg + S}
         if variant == "bind":
-            arg = " with 'vB'" if B else ""
+            arg = f" with {vb}" if B else ""
             return {"root": inc + asg + f"{{% include '{N}'{arg} %}}", N: S}
-        arg = " for c10src" if B else ""
-        return {"root": "{% assign c10src = 'vB' | split: ',' %}" + inc + asg
-                + f"{{% include '{N}'{arg} %}}", N: S}
+        arg = f" for {src}" if B else ""
+        return {"root": src_setup + inc + asg + f"{{% include '{N}'{arg} %}}", N: S}
     if context == "render":
         if variant == "with":
             return {"root": decoy_o + "{% render 'p' %}" + decoy_c, "p": ordered("with", "0", S)}
         if variant == "kw":
-            arg = f", {N}: 'vB'" if B else ""
+            arg = f", {N}: {vb}" if B else ""
             return {"root": decoy_o + f"{{% render 'p'{arg} %}}" + decoy_c, "p": inc + asg + S}
         if variant == "bind":
-            arg = " with 'vB'" if B else ""
+            arg = f" with {vb}" if B else ""
             return {"root": f"{{% render '{N}'{arg} %}}", N: inc + asg + S}
-        arg = " for c10src" if B else ""
-        return {"root": "{% assign c10src = 'vB' | split: ',' %}" + f"{{% render '{N}'{arg} %}}",
-                N: inc + asg + S}
+        arg = f" for {src}" if B else ""
+        return {"root": src_setup + f"{{% render '{N}'{arg} %}}", N: inc + asg + S}
     if context == "macro":
         if variant == "with":
             return {"root": "{% macro m %}" + ordered("with", "0", S) + "{% endmacro %}"
                     + decoy_o + "{% call m %}" + decoy_c}
         if variant == "param":
             if B:
-                return {"root": f"{{% macro m {N} %}}" + inc + asg + S + "{% endmacro %}{% call m 'vB' %}"}
+                return {"root": f"{{% macro m {N} %}}" + inc + asg + S + f"{{% endmacro %}}{{% call m {vb} %}}"}
             return {"root": "{% macro m c10u %}" + inc + asg + S + "{% endmacro %}{% call m 'vB' %}"}
         if B:
-            return {"root": f"{{% macro m {N}: 'vB' %}}" + inc + asg + S + "{% endmacro %}{% call m %}"}
+            return {"root": f"{{% macro m {N}: {vb} %}}" + inc + asg + S + "{% endmacro %}{% call m %}"}
         return {"root": "{% macro m c10u: 'vB' %}" + inc + asg + S + "{% endmacro %}{% call m %}"}
     raise ValueError(context)
 
@@ -1078,21 +1176,33 @@ def build(name: str, mask: int, context: str, variant: str, only: str | None = N
 class O2:
     def __init__(self, ctx: Ctx):
         from liquid2 import Environment
+        from liquid2 import StrictUndefined
         from liquid2.exceptions import LiquidError
 
         self.ctx = ctx
         self.Environment = Environment
+        self.StrictUndefined = StrictUndefined
         self.LiquidError = LiquidError
         self.Loader = _make_loader_class()
-        self._envs: dict[tuple[str, bool], Any] = {}
+        self._envs: dict[Any, Any] = {}
+        self.view: list[str] = []
 
-    def env(self, name: str, with_e: bool):  # noqa: ANN201
-        k = (name, with_e)
+    def env(self, name: str, evalue: Any, falsy: dict[str, Any] | None):  # noqa: ANN201
+        """Environment whose globals hold the env-global layer (evalue is a 1-tuple when
+        the layer is present) and, for falsy profiles, the helper globals."""
+        fk = falsy["kind"] if falsy else None
+        strict = bool(falsy and falsy["strict"])
+        k = (name, repr(evalue), fk, strict)
         e = self._envs.get(k)
         if e is None:
-            e = self.Environment(
-                loader=self.Loader({}, {}), globals=({name: "vE"} if with_e else None)
-            )
+            g: dict[str, Any] = {}
+            if evalue:
+                g[name] = evalue[0]
+            if falsy:
+                g["c10f"] = copy.deepcopy(FALSY[fk])
+                g["c10items"] = [copy.deepcopy(FALSY[fk])]
+            kw = {"undefined": self.StrictUndefined} if strict else {}
+            e = self.Environment(loader=self.Loader({}, {}), globals=g or None, **kw)
             self._envs[k] = e
         return e
 
@@ -1102,16 +1212,21 @@ class O2:
         api, mode, style = case["api"], case["mode"], case["args"]
         steps = case.get("steps", [True, False, True])
         only = case.get("only")
-        nsites_expected = 1 if only else NSITES
-        tpls = build(name, mask, context, variant, only)
-        env = self.env(name, bool(mask & BIT["env-global"]))
+        falsy = case.get("falsy")
+        fk = falsy["kind"] if falsy else None
+        nsites_expected = 1 if only else (NSITES_EXT if falsy else NSITES)
+        vals, targets, _ = profile_values(name, mask, falsy)
+        tpls = build(name, mask, context, variant, only, falsy)
+        env = self.env(
+            name, (vals["env-global"],) if mask & BIT["env-global"] else (), falsy
+        )
         env.loader.templates = tpls
-        matter = {name: "vM"} if mask & BIT["matter"] else None
+        matter = {name: vals["matter"]} if mask & BIT["matter"] else None
         env.loader.matter = {"root": matter} if matter else {}
-        tg = {name: "vT"} if mask & BIT["template-global"] else None
+        tg = {name: vals["template-global"]} if mask & BIT["template-global"] else None
         keys: list[str] = []
         nsites = 0
-        self.view: list[str] = []
+        self.view = []
 
         def viol(key: str, what: str, extra: dict[str, Any]) -> None:
             keys.append(key)
@@ -1119,7 +1234,7 @@ class O2:
                 ctx.violation(key, what, dict(
                     {"o": "O2", "name": name, "mask": mask, "context": context,
                      "variant": variant, "api": api, "mode": mode, "args": style,
-                     "only": only,
+                     "only": only, "falsy": falsy,
                      "steps": steps, "layers_present": sorted(_layers(mask)),
                      "templates": tpls}, **extra))
 
@@ -1138,7 +1253,17 @@ class O2:
             present = _layers(mask) - {"render-arg"}
             if with_r:
                 present.add("render-arg")
-            args = {name: "vR"} if with_r else {}
+            args = {name: vals["render-arg"]} if with_r else {}
+            exp = expected_layer(name, present)
+            if falsy and exp in targets:
+                label = f"{exp}={fk}"
+                shown = f"the {fk} value bound in layer {exp}"
+            elif falsy:
+                label = f"{exp} (next layer bound to {fk})"
+                shown = f"layer {exp}"
+            else:
+                label = exp or "undefined"
+                shown = f"layer {exp}"
             try:
                 if mode == "sync":
                     out = t.render(**args) if style == "kwargs" else t.render(args)
@@ -1147,29 +1272,45 @@ class O2:
                 else:
                     out = drive(t.render_async(args))
             except Exception as e:  # noqa: BLE001
-                viol(f"precedence:error:{type(e).__name__}{suffix}",
-                     f"render raised {e!r}"[:300], {"step": si})
+                msg = str(e)
+                actual = None
+                if falsy and (type(e).__name__ == "UndefinedError" or "Undefined" in msg):
+                    actual = "undefined"
+                elif falsy and ("Object of type date" in msg):
+                    actual = "builtin"
+                if actual:
+                    viol(f"precedence:{label} shadowed-by {actual}{suffix}",
+                         f"{name} with layers {sorted(present)} must resolve to {shown}; the "
+                         f"render raised {type(e).__name__}: {msg.splitlines()[0][:120]} "
+                         f"(the name resolved to {actual})", {"step": si})
+                else:
+                    viol(f"precedence:error:{type(e).__name__}{suffix}",
+                         f"render raised {e!r}"[:300], {"step": si})
                 continue
             if record:
                 ctx.ev()
-            exp = expected_layer(name, present)
             found = re.findall(f"{OPEN}(\\w+):(.*?){CLOSE}", out, re.S)
             if len(found) != nsites_expected:
                 viol(f"precedence:sites-missing{suffix}",
-                     f"expected {NSITES} lookup sites in the output, found {len(found)}: {out[:200]!r}",
-                     {"step": si})
+                     f"expected {nsites_expected} lookup sites in the output, found "
+                     f"{len(found)}: {out[:200]!r}", {"step": si})
                 continue
             for kind, text in found:
                 nsites += 1
-                want = expected_text(kind, exp)
+                if falsy and exp in targets:
+                    want: str | None = expected_falsy(kind, fk)
+                else:
+                    want = expected_text(kind, exp)
                 self.view.append(
-                    f"render #{si + 1} layers={sorted(present)} expected-layer={exp} "
+                    f"render #{si + 1} layers={sorted(present)} expected={label} "
                     f"site={kind}: printed {text!r}, expected "
-                    f"{want if want is not None else '<date shape>'!r}"
+                    f"{'<anything but another layer>' if want == LOOSE else want if want is not None else '<date shape>'!r}"
                 )
                 if want is None:
                     pat = RE_NOW if name == "now" else RE_TODAY
                     good = bool(pat.match(text))
+                elif want == LOOSE:
+                    good = classify(kind, text, name) in ("unknown-value", "unknown")
                 else:
                     good = text == want
                 if good:
@@ -1178,9 +1319,9 @@ class O2:
                 if si > 0 and actual == "render-arg" and not with_r:
                     actual = "render-arg of a previous render"
                 viol(
-                    f"precedence:{exp or 'undefined'} shadowed-by {actual}{suffix}",
+                    f"precedence:{label} shadowed-by {actual}{suffix}",
                     f"{{{{ {name} }}}} at site '{kind}' with layers {sorted(present)} printed "
-                    f"{text!r} (layer {actual}); documented order gives layer {exp} "
+                    f"{text!r} (layer {actual}); documented order gives {shown} "
                     f"({want if want is not None else 'a date'!r}); render #{si + 1} of the template",
                     {"step": si, "site": kind, "printed": text, "expected_layer": exp},
                 )
@@ -1193,12 +1334,16 @@ class O2:
                 site = v["witnesses"][0].get("site")
                 if site and key in self.execute(dict(case, only=site), record=False):
                     small = dict(v["witnesses"][0], only=site,
-                                 templates=build(name, mask, context, variant, site))
+                                 templates=build(name, mask, context, variant, site, falsy))
                     v["witnesses"].insert(0, small)
                     del v["witnesses"][3:]
         if record:
             ctx.count("site_checks", nsites)
-            if len(_layers(mask)) + (1 if name != "n" else 0) >= 2:
+            if falsy:
+                ctx.count("falsy_site_checks", nsites)
+                ctx.count("falsy_renders", len(steps))
+                ctx.nt(name, mask, context, variant, api, mode, sorted(falsy.items()))
+            elif len(_layers(mask)) + (1 if name != "n" else 0) >= 2:
                 ctx.nt(name, mask, context, variant, api, mode)
         return keys
 
@@ -1207,26 +1352,47 @@ def _layers(mask: int) -> set[str]:
     return {k for k, b in BIT.items() if mask & b}
 
 
+def falsy_profiles(tier: str) -> list[tuple[str, str]]:
+    """(falsy value, where): 'inner' = the resolving layer binds it; 'inner2' = the
+    resolving layer and the next one bind it; 'second' = only the next layer binds it."""
+    p = [(k, "inner") for k in FALSY]
+    if tier == "quick":
+        return p + [("nil", "inner2"), ("false", "inner2"), ("nil", "second")]
+    return p + [(k, "inner2") for k in FALSY] + [(k, "second") for k in ("nil", "false", "zero")]
+
+
+# (name, subset) pairs whose resolving layer can bind nil: every subset with at least one
+# of the six valued layers
+NIL_APPLICABLE = sum(
+    1 for nm in NAMES for m in range(128)
+    if profile_values(nm, m, {"kind": "nil", "mode": "inner"}) is not None
+)
+
+
 def _run_o2(spec: dict[str, Any], ctx: Ctx) -> None:
     name, context = spec["name"], spec["context"]
+    tier = spec["tier"]
     o2 = O2(ctx)
     seen_src: set[str] = set()
     last = None
     step_orders = [[True, False, True]]
-    if spec["tier"] != "quick":
+    if tier != "quick":
         step_orders.append([False, True, False])
     bases = [b for b in range(128) if not b & BIT["render-arg"]]
+
+    def undocumented(variant: str, m: int) -> bool:
+        # whether an assign inside a rendered partial / macro body may rebind one of
+        # its own arguments is not documented: not generated
+        return bool(
+            (context, variant.removesuffix("+decoy")) in ARGUMENT_VARIANTS
+            and m & BIT["block"] and m & BIT["local"]
+        )
+
     for bi, base in enumerate(bases):
         if bi % spec["n"] != spec["i"]:
             continue
         for variant in CONTEXTS[context]:
-            if (
-                (context, variant.removesuffix("+decoy")) in ARGUMENT_VARIANTS
-                and base & BIT["block"]
-                and base & BIT["local"]
-            ):
-                # whether an assign inside a rendered partial / macro body may rebind
-                # one of its own arguments is not documented: not generated
+            if undocumented(variant, base):
                 ctx.count("o2_undocumented_not_generated")
                 continue
             tpls = build(name, base, context, variant)
@@ -1236,7 +1402,7 @@ def _run_o2(spec: dict[str, Any], ctx: Ctx) -> None:
             if dup:
                 ctx.count("o2_variants_collapsed")
                 continue
-            for api, mode, style in (APIS if spec["tier"] == "quick" else ALL_APIS):
+            for api, mode, style in (APIS if tier == "quick" else ALL_APIS):
                 for steps in step_orders:
                     case = {"name": name, "mask": base, "context": context,
                             "variant": variant, "api": api, "mode": mode, "args": style,
@@ -1248,6 +1414,43 @@ def _run_o2(spec: dict[str, Any], ctx: Ctx) -> None:
             ctx.seen(f"layer_subsets_{context}", f"{name}:{m:07b}")
             if context == "root" and name in ("n", "now"):
                 ctx.count("layer_subsets")
+            # ---- falsy values in the resolving layer(s) ------------------------------
+            for pi, (fk, fmode) in enumerate(falsy_profiles(tier)):
+                if profile_values(name, m, {"kind": fk, "mode": fmode}) is None:
+                    ctx.count("falsy_profile_not_applicable")
+                    continue
+                stricts = (False, True) if (fk, fmode) == ("nil", "inner") else ((m + pi) % 2 == 1,)
+                ran = False
+                for strict in stricts:
+                    for vi, variant in enumerate(CONTEXTS[context]):
+                        if undocumented(variant, m):
+                            continue
+                        if (fk == "elist" and (context, variant) == ("include", "bind")
+                                and m & BIT["block"]):
+                            continue  # `include … with <array>` iterates: zero renders
+                        if (tier == "quick" and vi and (m + vi + pi) % 2
+                                and (fk not in ("nil", "false") or fmode != "inner")):
+                            continue  # quick: half of the variants for the other profiles
+                        falsy = {"kind": fk, "mode": fmode, "lit": (m + vi + pi) % 2 == 0,
+                                 "strict": strict}
+                        tpls = build(name, m, context, variant, None, falsy)
+                        sig = hhex(sorted(tpls.items()), m, fk, fmode, strict)
+                        if sig in seen_src:
+                            continue
+                        seen_src.add(sig)
+                        apis = [APIS[(m + vi + pi) % len(APIS)]] if tier == "quick" else APIS
+                        for api, mode, style in apis:
+                            o2.execute({"name": name, "mask": m, "context": context,
+                                        "variant": variant, "api": api, "mode": mode,
+                                        "args": style, "steps": [bool(m & BIT["render-arg"])],
+                                        "falsy": falsy})
+                            ran = True
+                if ran:
+                    ctx.seen("falsy_profiles", f"{fk}:{fmode}")
+                    if fmode == "inner":
+                        ctx.seen(f"layer_subsets_{fk}", f"{name}:{m:07b}")
+                        if fk == "nil":
+                            ctx.seen(f"layer_subsets_nil_{context}", f"{name}:{m:07b}")
     if last:
         ctx.sample({"kind": "layers", "case": last,
                     "templates": build(name, last["mask"], context, last["variant"])})
@@ -1291,12 +1494,25 @@ def floors(tier: str) -> dict[str, int]:
         "set:layer_subsets_render": 384,
         "site_checks": 100_000,
         "monitor_selftest_detections": 46,
+        # every (name, subset) whose resolving layer can hold a value, with that layer
+        # bound to nil (and to false, 0, '', [], {}), in the root and partial contexts
+        "set:layer_subsets_nil": NIL_APPLICABLE,
+        "set:layer_subsets_nil_root": NIL_APPLICABLE,
+        "set:layer_subsets_nil_render": NIL_APPLICABLE,
+        "set:layer_subsets_false": NIL_APPLICABLE,
+        "set:layer_subsets_edict": NIL_APPLICABLE,
+        "set:falsy_profiles": len(falsy_profiles(tier)),
+        "falsy_site_checks": 400_000,
     }
 
 
 def exhaustive(tier: str, merged: dict[str, Any]) -> bool:  # noqa: ARG001
-    got = merged["sets"].get("layer_subsets", ())
-    return len(got) == len(NAMES) * 128 and not merged["failed"]
+    sets = merged["sets"]
+    return (
+        len(sets.get("layer_subsets", ())) == len(NAMES) * 128
+        and all(len(sets.get(f"layer_subsets_{fk}", ())) == NIL_APPLICABLE for fk in FALSY)
+        and not merged["failed"]
+    )
 
 
 def run_shard(spec: dict[str, Any], ctx: Ctx) -> None:
@@ -1314,7 +1530,9 @@ def replay(wit: dict[str, Any], ctx: Ctx) -> None:
         keys = o2.execute(wit)
         print(f"replay C10/O2: name={wit['name']} layers={sorted(_layers(wit['mask']))} "
               f"context={wit['context']}-{wit['variant']} api={wit['api']} mode={wit['mode']}")
-        for n, s in build(wit["name"], wit["mask"], wit["context"], wit["variant"], wit.get("only")).items():
+        print(f"  falsy profile: {wit.get('falsy')}")
+        for n, s in build(wit["name"], wit["mask"], wit["context"], wit["variant"],
+                          wit.get("only"), wit.get("falsy")).items():
             print(f"  template {n!r}: {s}")
         for line in o2.view:
             print("  " + line)
